@@ -70,6 +70,17 @@ def worker(case, led):
         if crit in ("fixed", "both"):
             lim = kw.get("per_node") or [kw["M"]] * (nn + 1)
             led.check(all(bd[i] <= lim[i] for i in range(1, nn)), f"post:{fn}:bond_limit", fn, f"bond dims {bd} exceed the per-node limits {list(lim)}", key + ("limit",), f, rep, nontriv)
+            if kw.get("via") != "temp_m_trunc":
+                try:
+                    y = a.copy()
+                    y.compress_config = cfg
+                    y = y.copy()            # the limits travel with the object
+                    y.compress()
+                    bdc = list(y.bond_dims)
+                    led.check(all(bdc[i] <= lim[i] for i in range(1, nn)) and bdc == bd, f"post:{fn}:bond_limit_after_copy", fn,
+                              f"a copy of the configured state compresses to {bdc}, the state itself to {bd}; limits {list(lim)}", key + ("limit-copy",), f, rep, nontriv)
+                except Exception as e:
+                    led.check(False, f"post:{fn}:total", fn, f"compress of a copy raised {type(e).__name__}: {e}", key + ("copy",), f, rep)
         led.check(all(p <= q_ for p, q_ in zip(bd, bd0)), f"post:{fn}:no_bond_grows", fn, f"{bd0} -> {bd}", key + ("grow",), f, rep, nontriv)
         led.check(np.linalg.norm(vc) <= nrm0 * (1 + KE), f"post:{fn}:norm_not_increased", fn, f"{np.linalg.norm(vc)} > {nrm0}", key + ("norm",), f, rep, nontriv)
         err = float(np.linalg.norm(vc - v0))
